@@ -48,7 +48,8 @@ DoD(e) ==
 Consume ==
   /\ res.k = "running" /\ l <= Len(Ev)
   /\ LET e == Ev[l] IN
-     IF e.side = "S" THEN
+     IF e.side = "E" THEN l' = l + 1 /\ UNCHANGED <<hs, hd, res>>   \* environment event: no handler involved
+     ELSE IF e.side = "S" THEN
         LET r == DoS(e) IN
         IF r.m = {} THEN hs' = r.h /\ l' = l + 1 /\ UNCHANGED <<hd, res>>
         ELSE res' = [k |-> "drift", at |-> l, clauses |-> r.m, pred |-> r.pred] /\ UNCHANGED <<hs, hd, l>>
